@@ -384,7 +384,7 @@ def write_to_textfile(path: str, registry: CollectorRegistry) -> None:
             os.replace(tmppath, path)
         else:
             os.rename(tmppath, path)
-    except Exception:
+    except BaseException:
         if os.path.exists(tmppath):
             os.remove(tmppath)
         raise
